@@ -205,7 +205,7 @@ def replay_main(path):
             continue
         side = ('nonzero-denominator', 'sqrt-argument-nonnegative')
         crash = any(n.startswith('no-exception') for n in eng.concrete_failures)
-        if eng.concrete_failures and (want in eng.concrete_failures or want in side or crash):
+        if eng.concrete_failures:
             print(f'replay[{kind}{"" if i is None else i}]: obligations failed on the real code: '
                   f'{sorted(set(eng.concrete_failures))} (solver reported: {want})')
             for line in eng.concrete_notes[:6]:
